@@ -11,7 +11,7 @@
    observed by the correspondence check, not proved. *)
 From Coq Require Import String Ascii List Bool Arith ZArith.
 Import ListNotations.
-Require Import PyBase Generated PyStr Symbols ParseEq ParseModel Classify BuildDef BuildDefFacts BuildDefExamples.
+Require Import PyBase Generated PyStr Symbols ParseEq ParseModel Classify BuildDef BuildDefFacts BuildDefExamples BuildRepr BuildReprFacts.
 Open Scope string_scope.
 
 (* the typed and the untyped template are the same text once the type hints are erased (kernel-checked on the strings
@@ -40,6 +40,26 @@ Theorem C15_fill : forall h c equations,
   format_named (template_of_hints h) (class_fields c equations) = POk (fill h c equations).
 Proof. exact fill_spec. Qed.
 Print Assumptions C15_fill.
+
+(* the list literals written into the text denote the name lists: reading back (BuildRepr.read_names, the fragment of
+   Python literal syntax that repr uses) what is written for any list of names — quotes, backslashes, control and
+   non-ASCII characters, None included — gives that list, and two different names are never written alike *)
+Theorem C15_names_read_back : forall l rest, read_names (py_repr_names l ++ rest) = Some (l, rest).
+Proof. exact read_names_repr. Qed.
+Print Assumptions C15_names_read_back.
+Theorem C15_repr_injective : forall s1 s2, py_repr_str s1 = py_repr_str s2 -> s1 = s2.
+Proof. exact py_repr_str_injective. Qed.
+Print Assumptions C15_repr_injective.
+(* in the class text (either template): the four literals read back as the four lists of class_of *)
+Theorem C15_text_lists_read_back : forall h c eqs,
+  exists t1 t2 t3 t4,
+    fill h c eqs = seg h 0 ++ t1 /\
+    read_names t1 = Some (c_endogenous c, seg h 1 ++ t2) /\
+    read_names t2 = Some (c_exogenous c, seg h 2 ++ t3) /\
+    read_names t3 = Some (c_parameters c, seg h 3 ++ t4) /\
+    read_names t4 = Some (c_errors c, seg h 4 ++ string_of_Z (c_lags c) ++ seg h 5 ++ string_of_Z (c_leads c) ++ seg h 6 ++ eqs ++ seg h 7).
+Proof. exact text_lists_read_back. Qed.
+Print Assumptions C15_text_lists_read_back.
 
 (* build_model_definition, for every converter, symbol list, options and template: the class fields come from class_of
    (no converter call when that fails), the converter runs over the emitting symbols in list order threading its state,
